@@ -29,6 +29,9 @@ pub async fn list_objects(
     let response = reqwest::get(path).await.map_err(S3ListObjectsError)?;
     trace!("  List objects response status: {}", response.status());
 
+    // An error response carries no listing; parsing it would silently yield zero objects
+    let response = response.error_for_status().map_err(S3ListObjectsError)?;
+
     let body = response.text().await.map_err(S3ListObjectsError)?;
     trace!("  List objects response body length: {}", body.len());
 
